@@ -38,7 +38,7 @@ func init() {
 					"mstr.Trunc: every string of <= 5 runes over 1-, 2-, 3- and 4-byte runes x every n in 0..len+2 (prefix, len <= n, identity when n >= len, valid UTF-8, len >= n-4 when cut), random invalid byte strings for the unconditional clauses. " +
 					"mstr.CompareNatural: all 259 strings of length <= 3 over {0,1,9,/,:,a}: result in {-1,0,1}, antisymmetry on all pairs, transitivity on all 17.4 M triples (counted: those whose premises a<=b<=c hold), zero iff equal after stripping leading zeros of digit runs; numeric order of embedded digit runs of up to 18 digits. " +
 					"distinct = enumerated inputs; non-trivial = mbits length >= 8 (word loop engaged) / Trunc cuts inside a multi-byte rune / CompareNatural pair with a digit run on both sides",
-				Required:     []string{"mbits_cases", "mbits_unaligned_word_cases", "mbits_exact_end_cases", "mbits_cancelling_word_cases", "trunc_cases", "trunc_cuts_inside_rune", "natural_pairs", "natural_triples", "natural_numeric_pairs"},
+				Required:     []string{"mbits_cases", "mbits_unaligned_word_cases", "mbits_exact_end_cases", "mbits_cancelling_word_cases", "trunc_cases", "trunc_cuts_inside_rune", "natural_pairs", "natural_triples", "natural_numeric_pairs", "natural_prefix_pairs"},
 				Exhaustive:   true,
 				Assumptions:  []string{"an over-read that stays inside one allocation and does not change the result is invisible to this monitor", "digit runs are kept to <= 18 digits so that int does not overflow"},
 				CoverPkgs:    []string{"github.com/creachadair/mds/mbits", "github.com/creachadair/mds/mstr"},
@@ -219,6 +219,68 @@ func canonDigits(s string) string {
 	return sb.String()
 }
 
+// refNatural is an independent implementation of the documented comparison:
+// runs of digits compare by value, runs of non-digits lexicographically, and
+// when exactly one side starts with a digit the remainders compare
+// lexicographically. Digit runs are compared as digit strings (no overflow).
+func refNatural(a, b string) int { r, _ := refNaturalK(a, b); return r }
+
+// refNaturalK also reports how the comparison was decided: 0 = the strings are
+// equal up to leading zeros, 1 = by the numeric values of two digit runs,
+// 2 = otherwise (text runs, a digit against a non-digit, one string a prefix
+// of the other). Only kinds 0 and 1 are fixed by the property statement.
+func refNaturalK(a, b string) (int, int) {
+	sign := func(x int) int {
+		switch {
+		case x < 0:
+			return -1
+		case x > 0:
+			return 1
+		}
+		return 0
+	}
+	isD := func(c byte) bool { return c >= '0' && c <= '9' }
+	for a != "" && b != "" {
+		da, db := isD(a[0]), isD(b[0])
+		switch {
+		case da && db:
+			i, j := 0, 0
+			for i < len(a) && isD(a[i]) {
+				i++
+			}
+			for j < len(b) && isD(b[j]) {
+				j++
+			}
+			x, y := strings.TrimLeft(a[:i], "0"), strings.TrimLeft(b[:j], "0")
+			if len(x) != len(y) {
+				return sign(len(x) - len(y)), 1
+			}
+			if x != y {
+				return sign(strings.Compare(x, y)), 1
+			}
+			a, b = a[i:], b[j:]
+		case da != db:
+			return sign(strings.Compare(a, b)), 2
+		default:
+			i, j := 0, 0
+			for i < len(a) && !isD(a[i]) {
+				i++
+			}
+			for j < len(b) && !isD(b[j]) {
+				j++
+			}
+			if a[:i] != b[:j] {
+				return sign(strings.Compare(a[:i], b[:j])), 2
+			}
+			a, b = a[i:], b[j:]
+		}
+	}
+	if a == b {
+		return 0, 0
+	}
+	return sign(strings.Compare(a, b)), 2
+}
+
 func hasDigit(s string) bool { return strings.ContainsAny(s, "0123456789") }
 
 func c20natural(c *fw.Ctx, strs []string, lo, hi int) {
@@ -243,6 +305,10 @@ func c20natural(c *fw.Ctx, strs []string, lo, hi int) {
 			}
 			if int(M[j][i]) != -v {
 				c.Fail(data, "CompareNatural(a,b) = %d but CompareNatural(b,a) = %d: not antisymmetric", v, M[j][i])
+				return
+			}
+			if want, kind := refNaturalK(strs[i], strs[j]); kind <= 1 && v != want {
+				c.Fail(data, "CompareNatural = %d, but comparing digit runs by value gives %d", v, want)
 				return
 			}
 			if (v == 0) != (canonDigits(strs[i]) == canonDigits(strs[j])) {
@@ -579,6 +645,50 @@ func runC20(c *fw.Ctx) {
 		}
 	}
 	idx += 100
+	// shared prefixes of every length 0..40 (mixing digits, letters and
+	// separators) followed by every pair of short tails: comparison against the
+	// reference implementation, and antisymmetry
+	if c.Begin(idx + 500000 + c.Block) {
+		r := c.Rng()
+		tails := []string{"", "0", "1", "2", "9", "00", "01", "10", "12", "x", "1x", "x1", "a", "/", ":", "0a", "a0", "19", "2a", "007"}
+		var cnt int64
+		for plen := c.Block; plen <= 40; plen += c.NBlocks {
+			for rep := 0; rep < 12; rep++ {
+				pb := make([]byte, plen)
+				for i := range pb {
+					pb[i] = "0123456789abcdefgh_-./:"[r.IntN(23)]
+				}
+				if rep%3 == 0 {
+					for i := plen / 2; i < plen; i++ {
+						pb[i] = byte('0' + r.IntN(10)) // the prefix ends inside a digit run
+					}
+				}
+				P := string(pb)
+				if n := len(P) - len(strings.TrimRight(P, "0123456789")); n > 12 {
+					P = P[:len(P)-n+12] // keep digit runs short enough for int
+				}
+				for _, t1 := range tails {
+					for _, t2 := range tails {
+						a, b := P+t1, P+t2
+						got, rev := mstr.CompareNatural(a, b), mstr.CompareNatural(b, a)
+						want, kind := refNaturalK(a, b)
+						cnt++
+						// antisymmetry always; the value itself where the statement fixes it
+						// (equal up to leading zeros, or decided by two digit runs)
+						if rev != -got || (kind <= 1 && got != want) {
+							c.Fail(map[string]any{"a": fw.Q(a), "b": fw.Q(b)}, "CompareNatural(a,b)=%d, CompareNatural(b,a)=%d; digit runs compared by value give %d (decided by kind %d)", got, rev, want, kind)
+							plen = 1000
+							break
+						}
+					}
+				}
+				c.Step()
+			}
+		}
+		c.Evals(cnt)
+		c.Add("natural_prefix_pairs", cnt)
+		c.SeenEnum(cnt)
+	}
 	nn := c.Pick(4000, 60000)
 	for k := 0; k < nn; k++ {
 		if !c.Begin(idx + k) {
